@@ -25,7 +25,7 @@ CLASSES = ("small", "small", "ties", "equal", "perfect", "nearperfect", "powers"
 
 def plan(tier, seed):
     n = 16 if tier == "quick" else 64
-    b = 55 if tier == "quick" else 160
+    b = 100 if tier == "quick" else 220      # the largest budget of all checks: six exact algorithms, each with its own focus phase
     return [{"seed": seed * 1000 + i, "shard": i, "nshards": n, "budget_s": b, "max_instances": 100000, "watchdog_s": b * 5 + 120} for i in range(n)]
 
 
